@@ -1,6 +1,7 @@
 package main
 
 import (
+	"os"
 	"sort"
 	"fmt"
 	"go/token"
@@ -84,6 +85,13 @@ func (x *Exec) doCall(st *State, fr *Frame, instr ssa.Instruction, c *ssa.CallCo
 		// devirtualization: the interface value was made in this very path from a value of an in-tree
 		// type whose method has a body; the concrete method (its contract, or its body when it is
 		// declared inline) is what runs
+		if recv.boxed == nil {
+			if b, ok := st.boxes[readOverWrite(rt.S)]; ok {
+				recv.boxed = b
+			} else if os.Getenv("VERIF_DEBUG_BOX") != "" {
+				fmt.Fprintf(os.Stderr, "box miss %s: %s\n", c.Method.Name(), rt.S)
+			}
+		}
 		if recv.boxed != nil && contract == nil {
 			if m := x.prog.LookupMethod(recv.boxed.typ, c.Method.Pkg(), c.Method.Name()); m != nil && len(m.Blocks) > 0 && x.isInTree(m) {
 				callee = m
@@ -130,7 +138,7 @@ func (x *Exec) doCall(st *State, fr *Frame, instr ssa.Instruction, c *ssa.CallCo
 	}
 	for _, a := range c.Args {
 		av := x.val(st, a)
-		args = append(args, Val{T: x.materialize(st, av), typ: a.Type(), fn: av.fn})
+		args = append(args, Val{T: x.materialize(st, av), typ: a.Type(), fn: av.fn, boxed: av.boxed})
 	}
 	if callee == nil && !c.IsInvoke() {
 		fvT := x.term(st, c.Value)
@@ -715,6 +723,14 @@ func (x *Exec) inlineCall(st *State, fr *Frame, callee *ssa.Function, fnv *FnVal
 		unsupported("inline depth exceeded at %s", callee)
 	}
 	nf := &Frame{fn: callee, parent: fr, depth: fr.depth + 1, ndefer: len(st.defers), entryNext: st.next}
+	if ic := x.contractFor(callee); ic != nil && len(args) == len(callee.Params) {
+		// parameter names for the loop invariants of an inline contract
+		func() {
+			defer func() { recover() }()
+			nf.env = x.bindParams(ic, callee.Signature, callee, args)
+		}()
+		nf.pre = st.snapshot()
+	}
 	for i, p := range callee.Params {
 		if i < len(args) {
 			st.vals[p] = args[i]
@@ -1346,4 +1362,23 @@ func ownedAccumulator(c *ssa.CallCommon) *ssa.Alloc {
 		}
 	}
 	return cell
+}
+
+// readOverWrite simplifies (select (store a i v) i) to v, repeatedly, at the top of a term.
+// It is used only to recognise a value that went through a freshly allocated cell.
+func readOverWrite(t string) string {
+	for {
+		if !strings.HasPrefix(t, "(select ") {
+			return t
+		}
+		args := splitArgs(t)
+		if len(args) != 3 || !strings.HasPrefix(args[1], "(store ") {
+			return t
+		}
+		st := splitArgs(args[1])
+		if len(st) != 4 || st[2] != args[2] {
+			return t
+		}
+		t = st[3]
+	}
 }
